@@ -86,7 +86,12 @@ def generate(seed, tier, cfg):
         elif x < 0.62:
             ops.append({"k": "bad_edit", "i": o.randrange(0, 20), "what": o.choice(("velocity_200", "velocity_neg", "pitch_128", "pitch_neg", "note_off_before_on", "sound_off_before_off", "note_on_neg", "unknown_key", "delete"))})
         elif x < 0.72:
-            ops.append({"k": "add_control", "time": o.randrange(0, 64) / 8.0 + 0.0625, "value": o.choice((0, 127, 64, 90, 30)), "number": o.choice((64, 64, 67))})
+            sus = [c["time"] for c in controls if c["number"] == 64]
+            if sus and o.random() < 0.35:
+                # a second pedal event at the moment of an existing one (two events of one MIDI tick)
+                ops.append({"k": "add_control", "time": o.choice(sus), "value": o.choice((0, 127, 64, 65, 90, 30)), "number": 64})
+            else:
+                ops.append({"k": "add_control", "time": o.randrange(0, 64) / 8.0 + 0.0625, "value": o.choice((0, 127, 64, 90, 30)), "number": o.choice((64, 64, 67))})
         elif x < 0.78:
             ops.append({"k": "rm_control", "i": o.randrange(0, 10)})
         elif x < 0.82:
